@@ -137,6 +137,62 @@ fn run_conn(port: u16, chunks: &[Vec<u8>], pause_us: u64) -> (Vec<u8>, bool) {
     (out, write_failed)
 }
 
+/// C10: connection drops at every byte offset.  A pipeline of n THROTTLE commands (quantity 1, fresh key, no refill) is
+/// cut at `offset`, the socket is closed abruptly without reading; afterwards a probe (quantity 0) on a new connection
+/// reports the key's remaining budget, and a well-behaved client running alongside must get exactly its own answers.
+fn mode_drops(port: u16, rng: &mut Rng, cases: u64) {
+    let b = 6i64;
+    let probe = |key: &str| -> Option<(i64, i64)> {
+        let cmd = array(&[bulk(b"THROTTLE"), bulk(key.as_bytes()), int(b), int(1), int(9_000_000), int(0)]);
+        let (reply, _) = run_conn(port, &[cmd], 0);
+        // *5 :a :lim :rem :reset :retry
+        let t = String::from_utf8_lossy(&reply).to_string();
+        let v: Vec<i64> = t.split("\r\n").filter_map(|l| l.strip_prefix(':').and_then(|x| x.parse().ok())).collect();
+        if v.len() == 5 { Some((v[0], v[2])) } else { None }
+    };
+    for case in 0..cases {
+        let n = rng.range(1, 4) as usize;
+        let mk = |key: &str| -> Vec<u8> { let mut st = Vec::new(); for _ in 0..n { st.extend_from_slice(&array(&[bulk(b"THROTTLE"), bulk(key.as_bytes()), int(b), int(1), int(9_000_000)])); } st };
+        let len = mk("d0_0").len();
+        let offsets: Vec<usize> = if rng.chance(1, 3) { (0..=len).collect() } else { (0..12).map(|_| rng.below(len as u64 + 1) as usize).collect() };
+        let mut rows = Vec::new();
+        for (oi, &off) in offsets.iter().enumerate() {
+            let key = format!("d{case}_{oi}");
+            let stream = mk(&key);
+            let frame = stream.len() / n;
+            let complete = off.min(stream.len()) / frame;
+            // a bystander on its own key, started before the drop and finished after it
+            let bkey = format!("d{case}_{oi}_bystander");
+            let mut by = TcpStream::connect(("127.0.0.1", port)).unwrap();
+            by.set_read_timeout(Some(Duration::from_millis(3000))).unwrap();
+            let bcmd = array(&[bulk(b"THROTTLE"), bulk(bkey.as_bytes()), int(b), int(1), int(9_000_000)]);
+            let _ = by.write_all(&bcmd);
+            {
+                let mut s = TcpStream::connect(("127.0.0.1", port)).unwrap();
+                s.set_nodelay(true).unwrap();
+                let _ = s.write_all(&stream[..off.min(stream.len())]);
+                if rng.chance(1, 2) { let _ = s.shutdown(std::net::Shutdown::Both); }
+                drop(s);
+            }
+            let _ = by.write_all(&bcmd);
+            let mut got = Vec::new();
+            let mut buf = [0u8; 512];
+            while got.iter().filter(|&&c| c == b'*').count() < 2 || !got.ends_with(b"\r\n") || got.len() < 40 {
+                match by.read(&mut buf) { Ok(0) | Err(_) => break, Ok(k) => got.extend_from_slice(&buf[..k]) }
+            }
+            let bt = String::from_utf8_lossy(&got).to_string();
+            let bv: Vec<i64> = bt.split("\r\n").filter_map(|l| l.strip_prefix(':').and_then(|x| x.parse().ok())).collect();
+            let bystander_ok = bv.len() == 10 && bv[0] == 1 && bv[2] == b - 1 && bv[5] == 1 && bv[7] == b - 2;
+            // the dropped connection's commands are served (or not) asynchronously: wait until the budget is stable
+            let mut last = None;
+            for _ in 0..40 { std::thread::sleep(Duration::from_millis(2)); let p = probe(&key); if p == last && p.is_some() { break; } last = p; }
+            let (pa, prem) = last.unwrap_or((-1, -1));
+            rows.push(format!("{{\"offset\":{off},\"complete\":{complete},\"probe_allowed\":{pa},\"remaining\":{prem},\"bystander_ok\":{bystander_ok}}}"));
+        }
+        println!("{{\"mode\":\"drops\",\"case\":{case},\"commands\":{n},\"burst\":{b},\"stream_len\":{len},\"rows\":[{}]}}", rows.join(","));
+    }
+}
+
 fn main() {
     let seed = arg_u64("--seed", 1);
     let n_cases = arg_u64("--cases", 100);
@@ -156,6 +212,7 @@ fn main() {
     let snap = |m: &Metrics| -> [u64; 7] { [m.total_requests.load(Ordering::Relaxed), m.http_requests.load(Ordering::Relaxed), m.grpc_requests.load(Ordering::Relaxed),
         m.redis_requests.load(Ordering::Relaxed), m.requests_allowed.load(Ordering::Relaxed), m.requests_denied.load(Ordering::Relaxed), m.requests_errors.load(Ordering::Relaxed)] };
     let mut rng = Rng::new(seed ^ 0xc044);
+    if arg_value("--mode").as_deref() == Some("drops") { mode_drops(port, &mut rng, n_cases); std::process::exit(0); }
     for case in 0..n_cases {
         let ncmd = rng.range(1, max_cmds as i64) as usize;
         let mut stream = Vec::new();
